@@ -33,6 +33,7 @@ m=json.load(open(p)) if os.path.exists(p) else {}
 m.update({"property":ID,"name":SLUG,"breaks":"see README.md (written by the independent sub-agent that produced the change)","demo_placement":"v8/"+DEMODIR,
  "confirmed":{"repo_head":head,"demo_passes_without_change":True,"suite_passes_with_change":True,"demo_fails_with_change":True,
    "commands":["git -C <worktree> apply patch.diff","cd v8 && go build ./... && go test -count=1 ./...","go test -count=1 -run <demo tests> ./"+DEMODIR+"/"]}})
+if isinstance(m.get("history"),str): m["history"]=[{"note":m["history"]}]
 prev=m.get("check_results",{}).get(TIER)
 if prev and prev.get("verdict")!=verdict:
     m.setdefault("history",[]).append({"tier":TIER,"earlier_verdict":prev.get("verdict"),"earlier_signature":prev.get("signature",""),"note":"result of the check as it stood before it was strengthened"})
